@@ -273,6 +273,10 @@ var checks = map[string]Check{
 				}
 				js = append(js, sl)
 			}
+			// a reply larger than the peer's message size limit: still exactly one reply (or disconnection)
+			for _, pr := range []string{"raw", "json", "pb", "thrift", "http"} {
+				js = append(js, sched("c03_big", "proto="+pr, b, 1))
+			}
 			// messages with and without a write deadline alternating with calls while the network clock advances
 			dl := sched("c03_deadline", "depth=4", 0, 1)
 			dl.EnvOnly = true
@@ -377,7 +381,7 @@ var checks = map[string]Check{
 	},
 	"C12": {
 		Level:       "exploration",
-		Rule:        "bounded-exhaustive enumeration: every pipe over the registered filter ids up to length 4 (quick) / 8 (thorough, with a 1 MiB payload) plus md5 pipes of length 254, 255 and 256, crossed with payloads {empty, all 256 single bytes, 1 KiB compressible, 1 KiB incompressible}; every single-byte corruption (every offset x 255 values), truncation and extension of md5-packed payloads of length 0..32 (quick) / 96; unregistered ids at every position refused by Append and by Unpack of raw/json/pb frames; live sessions: a call sent through each of 6 pipes over 5 protocols (http: gzip only), handler returning a result / an error status / a result the codec cannot encode / panicking / route unknown, reply pipe read from the reply frame and status checked (all non-preemptive schedules)",
+		Rule:        "bounded-exhaustive enumeration: every pipe over the registered filter ids up to length 4 (quick) / 8 (thorough, with a 1 MiB payload) plus md5 pipes of length 254, 255 and 256, crossed with payloads {empty, all 256 single bytes, 1 KiB compressible, 1 KiB incompressible}; every single-byte corruption (every offset x 255 values), truncation and extension of md5-packed payloads of length 0..32 (quick) / 96; unregistered ids at every position refused by Append and by Unpack of raw/json/pb frames; live sessions: a call sent through each of 6 pipes over 5 protocols (http: gzip only), handler returning a result / an error status / a result the codec cannot encode / panicking / route unknown / adding a registered and an unregistered filter in one call, reply pipe read from the reply frame and status checked (all non-preemptive schedules)",
 		Assumptions: []string{"registered filters in the harness process: gzip ('g', level 5) and md5 ('m')"},
 		Jobs: func(tier string) []Job {
 			l, c, big := "4", "32", "0"
